@@ -530,9 +530,15 @@ class ConditionEvaluator(ast.NodeVisitor):
                 active.append(result.condition)
                 if is_and:
                     if result.left_varmap is None:
-                        # Condition returns False
+                        # Condition returns False, both for the values that got
+                        # here and for those an earlier operand filtered out
+                        right_varmap = result.right_varmap
+                        if right_varmap is not None and remaining_varmaps:
+                            right_varmap = unite_varmaps(
+                                [*remaining_varmaps, right_varmap]
+                            )
                         return ConditionReturn(
-                            right_varmap=result.right_varmap,
+                            right_varmap=right_varmap,
                             condition=ConditionList(active),
                         )
                     elif result.right_varmap is None:
@@ -556,9 +562,15 @@ class ConditionEvaluator(ast.NodeVisitor):
                             self.ctx.narrow_variables(result.right_varmap)
                         )
                     elif result.right_varmap is None:
-                        # Condition returns True
+                        # Condition returns True, both for the values that got
+                        # here and for those an earlier operand already accepted
+                        left_varmap = result.left_varmap
+                        if remaining_varmaps:
+                            left_varmap = unite_varmaps(
+                                [*remaining_varmaps, left_varmap]
+                            )
                         return ConditionReturn(
-                            left_varmap=result.left_varmap,
+                            left_varmap=left_varmap,
                             condition=ConditionList(active),
                         )
                     else:
